@@ -162,10 +162,10 @@ def run(ctx):
                     with fk.quiet():
                         r = ekf.sensor_model(st, cv, sensor_key=key, sensor_reading=ekf.make_reading(key, **z))
                     py = {"state": fk.by_name(r.state), "cov": np.asarray(r.covariance.data, dtype=float),
-                          "inn": np.asarray(ekf.innovations[key], dtype=float).reshape(-1).tolist(), "rejected": r.state is st}
+                          "inn": eh.recorded(ekf.innovations, key).reshape(-1).tolist(), "rejected": r.state is st}
                     last_inn[(fi, key)] = list(py["inn"])
-                    S = np.asarray(ekf.sensor_prediction_uncertainty[key], dtype=float)
-                    y = np.asarray(ekf.innovations[key], dtype=float)
+                    S = eh.recorded(ekf.sensor_prediction_uncertainty, key)
+                    y = eh.recorded(ekf.innovations, key)
                     nis = float((y.T @ np.linalg.inv(S) @ y).item())
                     m = len(Lr)
                     thr = None if k is None else k * math.sqrt(2 * m) + m
@@ -225,7 +225,7 @@ def run(ctx):
             case = dict(cfgdesc, op=f"stored-innovation:{key}", filter_index=fi)
             ctx.case(case, True); ctx.count("stored_innovation_revisited")
             mine = last_inn.get((fi, key))
-            have = np.asarray(ekf.innovations[key], dtype=float).reshape(-1).tolist() if key in ekf.innovations else None
+            have = eh.recorded(ekf.innovations, key).reshape(-1).tolist() if key in ekf.innovations else None
             if mine is None and have is not None:
                 ctx.fail("py-cpp-innovation:never-updated", f"a Python filter that never processed sensor {key} reports a stored innovation {have} "
                          "(the C++ filter reports none)", case)
@@ -399,9 +399,9 @@ def _fixed_chain(ctx, sp, exe, ekf, cal, cfgdesc):
                 with fk.quiet():
                     r = ekf.sensor_model(st, cv, sensor_key=key, sensor_reading=ekf.make_reading(key, **z))
                 py = {"state": fk.by_name(r.state), "cov": np.asarray(r.covariance.data, dtype=float),
-                      "inn": np.asarray(ekf.innovations[key], dtype=float).reshape(-1).tolist(), "rejected": r.state is st}
-                S = np.asarray(ekf.sensor_prediction_uncertainty[key], dtype=float)
-                y = np.asarray(ekf.innovations[key], dtype=float)
+                      "inn": eh.recorded(ekf.innovations, key).reshape(-1).tolist(), "rejected": r.state is st}
+                S = eh.recorded(ekf.sensor_prediction_uncertainty, key)
+                y = eh.recorded(ekf.innovations, key)
                 nis = float((y.T @ np.linalg.inv(S) @ y).item())
                 m = len(Lr)
                 thr = None if k is None else k * math.sqrt(2 * m) + m
